@@ -134,6 +134,9 @@ def cases(run, rng):
              [t, P.Table("t", alias="t2")]),
             ("aliased-referenced-by-bare-name", lambda: qc.from_(P.Table("t", alias="x")).join(u).on(P.Table("t").a == u.a).select("*"), [P.Table("t", alias="x")], [], u, [], [],
              [P.Table("t"), u]),
+            # what a sibling continuation of the same ancestor joined is not available here
+            ("branch-sibling-join", lambda: _branch(qc, t, u, w, 1), [t], [], w, [], [], [w, u]),
+            ("branch-nephew-join", lambda: _branch(qc, t, u, w, 2), [t], [], P.Table("v"), [], [], [P.Table("v"), w]),
             ("using-never-validated", lambda: qc.from_(t).join(u).using("a").select("*"), [t], [], u, [], [], []),
             ("cross", lambda: qc.from_(t).join(u).cross().select("*"), [t], [], u, [], [], []),
         ]
@@ -199,7 +202,14 @@ def cases(run, rng):
            "select": lambda: PostgreSQLQuery.from_(t).select(t.a), "update-join": lambda: PostgreSQLQuery.update(t).join(u).on(t.a == u.a).set(t.b, u.b)}
     terms = {"own-field": (lambda: t.a, False, False), "own-str": (lambda: "a", False, False), "star": (lambda: "*", False, False), "constant": (lambda: 1, False, False),
              "own-arith": (lambda: t.a + t.b, False, False), "foreign-field": (lambda: u.a, True, False), "foreign-arith": (lambda: t.a + u.a, True, False),
-             "foreign-arith-reversed": (lambda: u.a + t.a, True, False), "aggregate": (lambda: fn.Sum(t.a), False, True), "function": (lambda: fn.Lower(t.a), False, True)}
+             "foreign-arith-reversed": (lambda: u.a + t.a, True, False),
+             # composite terms of every other kind: a column of a table that is not a source is rejected inside them as well
+             "own-case": (lambda: P.Case().when(t.x > 0, 1).else_(0), False, False), "foreign-case": (lambda: P.Case().when(u.x > 0, 1).else_(0), True, False),
+             "own-criterion": (lambda: t.a == 1, False, False), "foreign-criterion": (lambda: u.a == 1, True, False),
+             "foreign-negative": (lambda: -u.a, True, False), "foreign-not": (lambda: ~(u.a == 1), True, False),
+             "foreign-isnull": (lambda: u.a.isnull(), True, False), "foreign-between": (lambda: u.a.between(1, 2), True, False),
+             "foreign-in": (lambda: u.a.isin([1, 2]), True, False), "foreign-tuple": (lambda: T.Tuple(u.a, 1), True, False),
+             "own-tuple": (lambda: T.Tuple(t.a, 1), False, False), "aggregate": (lambda: fn.Sum(t.a), False, True), "function": (lambda: fn.Lower(t.a), False, True)}
     for (dn, df), (tn, (tf, foreign, agg)) in itertools.product(dml.items(), terms.items()):
         joined_foreign = foreign and dn != "update-join"
         o = outcome(lambda: df().returning(tf()))
@@ -232,6 +242,16 @@ def cases(run, rng):
         # rollup after MySQL rollup
         o = outcome(lambda: MySQLQuery.from_(t).select(t.a).groupby(t.a).rollup(vendor="mysql").rollup(t.b))
         yield {"label": "oneshot:rollup-after-mysql-rollup", "corr": [], "expr": "j (Some XAttr) %d" % code(o), "known": None, "describe": {"implementation": str(o)}}
+
+
+def _branch(qc, t, u, w, depth):
+    base = qc.from_(t).select(t.a)
+    b1 = base.join(u).on(t.a == u.a)                  # a continuation that is thrown away
+    if depth == 1:
+        return base.join(w).on(w.b == u.b).select("*")
+    b1.join(w).on(u.b == w.b)                         # one level deeper on the other branch
+    v = P.Table("v")
+    return base.join(v).on(v.a == w.a).select("*")
 
 
 def QB(qc):
